@@ -1,0 +1,26 @@
+//go:build verif
+
+// Contracts for contract-based verification (/verif). Comment-only: with or without the
+// build tag "verif" this file adds nothing to the compiled package.
+
+package rapi
+
+// C12/C18: the route set of the Runtime API. Snapshot-restore routes exist only in init-caching mode.
+//@ event RouteNext = call chi.(*Mux).Get when a1 == "/runtime/invocation/next"
+//@ event RouteResponse = call chi.(*Mux).Post when a1 == "/runtime/invocation/{awsrequestid}/response"
+//@ event RouteError = call chi.(*Mux).Post when a1 == "/runtime/invocation/{awsrequestid}/error"
+//@ event RouteInitError = call chi.(*Mux).Post when a1 == "/runtime/init/error"
+//@ event RouteRestoreNext = call chi.(*Mux).Get when a1 == "/runtime/restore/next"
+//@ event RouteRestoreError = call chi.(*Mux).Post when a1 == "/runtime/restore/error"
+//@ event RouteOtherGet = call chi.(*Mux).Get when a1 != "/runtime/invocation/next" && a1 != "/runtime/restore/next" && a1 != "/ping"
+//@ event RouteOtherPost = call chi.(*Mux).Post when a1 != "/runtime/invocation/{awsrequestid}/response" && a1 != "/runtime/invocation/{awsrequestid}/error" && a1 != "/runtime/init/error" && a1 != "/runtime/restore/error"
+//@ event InitTypeCaching = ret appctx.LoadInitType when r0 == appctx.InitCaching
+//@ event InitTypeLoaded = ret appctx.LoadInitType
+//@ event ValidatorWraps = call middleware.AwsRequestIDValidator
+//@ event MountCredentials = call rapi.CredentialsAPIRouter
+
+//@ func NewRouter
+//@   ensures [runtime-routes] delta(RouteNext) == 1 && delta(RouteResponse) == 1 && delta(RouteError) == 1 && delta(RouteInitError) == 1
+//@   ensures [no-other-routes] delta(RouteOtherGet) == 0 && delta(RouteOtherPost) == 0
+//@   ensures [restore-routes-iff-snapshot-mode] delta(InitTypeLoaded) == 1 && (delta(InitTypeCaching) == 1 ==> delta(RouteRestoreNext) == 1 && delta(RouteRestoreError) == 1) && (delta(InitTypeCaching) == 0 ==> delta(RouteRestoreNext) == 0 && delta(RouteRestoreError) == 0)
+//@   ensures [id-validated-on-response-and-error] delta(ValidatorWraps) == 2
